@@ -31,6 +31,12 @@ def configs(tier, seed):
                     out.append(dict(h="in_to_stock_to_in", op=solver, key=f"in_to_stock_to_in/{solver}/grid={grid}/n={n}/extra={ek}", solver=solver, grid=grid, n=n, extra=extra))
                     out.append(dict(h="stock_to_in_to_stock", op=solver, key=f"stock_to_in_to_stock/{solver}/grid={grid}/n={n}/extra={ek}", solver=solver, grid=grid, n=n, extra=extra))
                 out.append(dict(h="solvers_agree", op="both", key=f"solvers_agree/grid={grid}/n={n}/extra={ek}", grid=grid, n=n, extra=extra))
+    if tier == "quick":
+        for solver in ("manual", "lapack"):
+            for extra in ({"r": 2, "p": 2}, {"r": 2, "p": 3}):
+                ek = "x".join(f"{l}{k}" for l, k in extra.items())
+                out.append(dict(h="in_to_stock_to_in", op=solver + "2d", key=f"in_to_stock_to_in/{solver}/grid=uneven/n=3/extra={ek}", solver=solver, grid="uneven", n=3, extra=extra))
+        out.append(dict(h="solvers_agree", op="both2d", key="solvers_agree/grid=const/n=3/extra=r2xp3", grid="const", n=3, extra={"r": 2, "p": 3}))
     from checks.c09 import FIXED_SCHEDULES
 
     for sched in FIXED_SCHEDULES:
